@@ -2,6 +2,7 @@ SPECIFICATION Spec
 CONSTANTS
   Base = {"send", "send1", "send2"}
   MaxDecls = 5
+  MaxCtors = 0
   Probing = TRUE
 INVARIANTS UniqueMethods FunctionsUniqueExactlyOutsideClass FirstKeepsName ExternCollisionNeedsSuffixLikeNames Emit
 CHECK_DEADLOCK FALSE
